@@ -45,10 +45,14 @@ ScenInit == /\ nUpd = 0 /\ strain = 0
                                tex |-> RandomElement(Texs), part |-> RandomElement(Parts), par |-> RandomElement(ParClasses), n |-> RandomElement(Ns),
                                q |-> QSeq[a], s |-> RandomElement(SClasses), i |-> i] : a \in 1..3, b \in 1..11, c \in 1..2, i \in 1..Reps}
                              \cup
-                             {[kind |-> "scale", fab |-> f, regime |-> RandomElement(Regimes), flow |-> RandomElement(Flows),
-                               tex |-> RandomElement(Texs), part |-> IF pc = "fine" THEN 100 ELSE RandomElement(Parts \ {100}),
+                             \* (the flow is stratified too: for every rate factor k the twelve (fabric, partition) pairs run
+                             \*  through all eleven flow classes - steady, time- and position-dependent - so that no seed can
+                             \*  leave a (k, flow) pair out)
+                             {[kind |-> "scale", fab |-> FabSeq[a], regime |-> RandomElement(Regimes),
+                               flow |-> FlowSeq[((a + 6 * pc + i) % 11) + 1],
+                               tex |-> RandomElement(Texs), part |-> IF pc = 1 THEN 100 ELSE RandomElement(Parts \ {100}),
                                par |-> RandomElement(ParClasses), n |-> RandomElement(Ns),
-                               k |-> k, i |-> i] : f \in Fabs, k \in Ks, pc \in {"coarse", "fine"}, i \in 1..Reps})
+                               k |-> k, i |-> i] : a \in 1..6, k \in Ks, pc \in {0, 1}, i \in 1..Reps})
 ScenNext == UNCHANGED vars
 \* the harness asks for a seeded subset: emit only scenarios whose index is selected
 EmitScen == PrintT(<<"SCEN", ToJson(st)>>)
